@@ -216,13 +216,14 @@ class MultimapResolver:
             max_overlap_len = max(overlap_len, max_overlap_len)
             overlap_index_list.append((overlap_len, assignment.genomic_region[0], i))
 
-        # select assignment with the best overlap with genic region and lowest region start (for reproducibility),
-        # remaining ties are resolved by chromosome and position so that the choice does not depend on the list order
+        # select assignment with the best overlap with genic region; the primary alignment is preferred to secondary ones,
+        # then the lowest region start (for reproducibility), remaining ties are resolved by chromosome and position
+        # so that the choice does not depend on the list order
         best_key = None
         best_assignment = -1
         for info in overlap_index_list:
             assignment = assignment_list[info[2]]
-            key = (info[1], assignment.chr_id, assignment.start, assignment.end)
+            key = (bool(assignment.multimapper), info[1], assignment.chr_id, assignment.start, assignment.end)
             if info[0] == max_overlap_len and (best_key is None or key < best_key):
                 best_key = key
                 best_assignment = info[2]
